@@ -26,4 +26,15 @@ def distance_pairwise_cell {K : Type} [Add K] [Sub K] [Mul K] [Div K] [Neg K]
   let cell_distance := (o.sqrt (((dx * dx) + (dy * dy)) + (dz * dz)))
   cell_distance
 
+/-- generated from `arim/ray.py`, function `_expand_rays` (line 202): `depth` is `d = interior_indices.shape[0]`; the result is the column `expanded_indices[:, i, j]` -/
+def expand_rays_cell {K : Type} [Add K] [Sub K] [Mul K] [Div K] [Neg K]
+    (o : Ops K) (interior_indices : Nat → Nat → Nat → Int) (indices_new_interface : Nat → Nat → Int) (depth : Nat) (i : Nat) (j : Nat) : List Int :=
+  let expanded_indices : List Int := []
+  let idx := (indices_new_interface i j)
+  let expanded_indices := (List.range depth).foldl (fun expanded_indices k =>
+        let expanded_indices := expanded_indices ++ [(interior_indices k i (idx).toNat)]
+        expanded_indices) expanded_indices
+  let expanded_indices := expanded_indices ++ [idx]
+  expanded_indices
+
 end Arim.Src
